@@ -89,6 +89,9 @@ type Corpus struct {
 	// Compound: all repositories are merged into one compound shard
 	// (index.Merge); otherwise one simple shard per repository.
 	Compound bool `json:",omitempty"`
+	// Hot: text around the position where a near-miss document (addTwin)
+	// differs from its original; patterns are drawn from it.
+	Hot []string `json:",omitempty"`
 }
 
 const NotIndexedMarker = "NOT-INDEXED: "
